@@ -61,6 +61,53 @@ func newWorld(cfg worldCfg) (*world, error) {
 	return newWorldOn(s, cfg)
 }
 
+// lastWorld is the world of the history being run: if the production loop never returns from an
+// event, the watchdog of the suite reports the events recorded so far
+var lastWorld *world
+
+// guarded runs one history; a history that does not finish within the deadline means that the
+// single event loop is stuck inside an event (in production: the whole proxy hangs).  The stuck
+// goroutine cannot be stopped, so the suite ends after reporting it.
+func guarded(f func() (sx.V, sx.V, []string)) (in sx.V, out sx.V, tags []string) {
+	if loopWedged {
+		return nil, nil, nil
+	}
+	type res struct {
+		in, out sx.V
+		tags    []string
+	}
+	ch := make(chan res, 1)
+	lastWorld = nil
+	go func() {
+		defer func() {
+			if r := recover(); r != nil {
+				msg := fmt.Sprint(r)
+				if len(msg) > 200 {
+					msg = msg[:200]
+				}
+				var in sx.V = sx.L()
+				if lastWorld != nil {
+					in = lastWorld.inputSx()
+				}
+				ch <- res{in, sx.L(sx.S("panic"), sx.S(msg)), []string{"panic"}}
+			}
+		}()
+		a, b, c := f()
+		ch <- res{a, b, c}
+	}()
+	select {
+	case r := <-ch:
+		return r.in, r.out, r.tags
+	case <-time.After(60 * time.Second):
+		loopWedged = true
+		var in sx.V = sx.L()
+		if lastWorld != nil {
+			in = lastWorld.inputSx()
+		}
+		return in, sx.L(sx.L(sx.S("event-loop-stuck"))), []string{"stuck"}
+	}
+}
+
 func newWorldOn(s *stepper.S, cfg worldCfg) (*world, error) {
 	for _, a := range cfg.nodes {
 		s.AddPool(a, false)
@@ -70,8 +117,10 @@ func newWorldOn(s *stepper.S, cfg worldCfg) (*world, error) {
 		sets = append(sets, core.VerifReplicaset{Master: r[2].(string), Ranges: [][2]int32{{int32(r[0].(int)), int32(r[1].(int))}}})
 	}
 	s.L.SetSlots(sets)
-	return &world{s: s, cfg: cfg, answered: map[*stepper.Peer]int{}, shaken: map[*stepper.Peer]bool{}, closedC: map[int]bool{}, closedS: map[*stepper.Peer]bool{},
-		reqSeq: map[int]int{}, tagset: map[string]bool{}}, nil
+	w := &world{s: s, cfg: cfg, answered: map[*stepper.Peer]int{}, shaken: map[*stepper.Peer]bool{}, closedC: map[int]bool{}, closedS: map[*stepper.Peer]bool{},
+		reqSeq: map[int]int{}, tagset: map[string]bool{}}
+	lastWorld = w
+	return w, nil
 }
 
 func (w *world) backendName(p *stepper.Peer) (string, int) {
@@ -727,11 +776,11 @@ func suiteLoop(c *Ctx) {
 	for i := 0; i < topoN; i++ {
 		var in, out sx.V
 		var tags []string
-		o := Safe(func() sx.V { in, out, tags = runTopoHistory(c.Seed, i); return out })
+		in, out, tags = guarded(func() (sx.V, sx.V, []string) { return runTopoHistory(c.Seed, i) })
 		if in == nil {
-			in = sx.L()
+			break
 		}
-		c.Emit("loop", in, o, tags...)
+		c.Emit("loop", in, out, tags...)
 	}
 	deep := 1
 	if !c.Quick() {
@@ -740,11 +789,11 @@ func suiteLoop(c *Ctx) {
 	for i := 0; i < deep; i++ {
 		var in, out sx.V
 		var tags []string
-		o := Safe(func() sx.V { in, out, tags = runDeepHistory(c.Seed, i); return out })
+		in, out, tags = guarded(func() (sx.V, sx.V, []string) { return runDeepHistory(c.Seed, i) })
 		if in == nil {
-			in = sx.L()
+			break
 		}
-		c.Emit("loop", in, o, tags...)
+		c.Emit("loop", in, out, tags...)
 	}
 	n := 300
 	if !c.Quick() {
@@ -753,10 +802,10 @@ func suiteLoop(c *Ctx) {
 	for i := 0; i < n; i++ {
 		var in, out sx.V
 		var tags []string
-		o := Safe(func() sx.V { in, out, tags = runHistory(c.Seed, i, c.Quick()); return out })
+		in, out, tags = guarded(func() (sx.V, sx.V, []string) { return runHistory(c.Seed, i, c.Quick()) })
 		if in == nil {
-			in = sx.L()
+			break
 		}
-		c.Emit("loop", in, o, tags...)
+		c.Emit("loop", in, out, tags...)
 	}
 }
